@@ -358,22 +358,25 @@ class Mir:
         to the body that creates it: it may be called by whatever the creator hands it to)"""
         if self._cg is None:
             g = {n: set() for n in self.bodies}
+            self.approx_edges = set()       # edges added by over-approximation of open dispatch (not resolved by the compiler)
             for n, b in self.bodies.items():
                 for _, t in b.calls():
                     c = self.callee_of(t)
                     if c in self.bodies:
                         g[n].add(c)
                     else:
-                        g[n].update(self.dyn_candidates(t, fmt=True))
-                        g[n].update(self.generic_candidates(t))
-                        g[n].update(self.indirect_candidates(t))
+                        ap = set(self.dyn_candidates(t, fmt=True)) | set(self.generic_candidates(t)) | set(self.indirect_candidates(t))
+                        self.approx_edges.update((n, c_) for c_ in ap if c_ not in g[n])
+                        g[n].update(ap)
                     # function items / closures passed as values
                     for o in t['args']:
                         if 'fn' in o and o['fn'] in self.bodies:
                             g[n].add(o['fn'])
                 for blk in b.blocks:
                     if blk['term']['k'] == 'drop':
-                        g[n].update(self.drop_candidates(b, blk['term']))
+                        ap = set(self.drop_candidates(b, blk['term']))
+                        self.approx_edges.update((n, c_) for c_ in ap if c_ not in g[n])
+                        g[n].update(ap)
                     for st in blk['stmts']:
                         rv = st['rv']
                         if rv.get('rk') == 'aggregate' and rv['agg'].startswith('closure:'):
